@@ -136,6 +136,8 @@ func makeReader(kind string, b []byte) avro.Reader {
 		return bytes.NewBuffer(append([]byte{}, b...))
 	case "strings":
 		return strings.NewReader(string(b))
+	case "eagereof":
+		return &eagerEOFReader{b: b}
 	case "bufio":
 		return bufio.NewReaderSize(&chunkReader{b: b, max: 7}, 16)
 	case "onebyte":
@@ -144,6 +146,36 @@ func makeReader(kind string, b []byte) avro.Reader {
 		return &chunkReader{b: b, max: 5}
 	}
 	return bytes.NewReader(b)
+}
+
+// eagerEOFReader returns io.EOF together with the last bytes it has (legal for an io.Reader; network bodies do it)
+type eagerEOFReader struct {
+	b   []byte
+	pos int
+}
+
+func (r *eagerEOFReader) Read(p []byte) (int, error) {
+	if r.pos >= len(r.b) {
+		return 0, io.EOF
+	}
+	n := copy(p, r.b[r.pos:])
+	if n > 4096 {
+		n = 4096
+	}
+	r.pos += n
+	if r.pos >= len(r.b) {
+		return n, io.EOF
+	}
+	return n, nil
+}
+
+func (r *eagerEOFReader) ReadByte() (byte, error) {
+	if r.pos >= len(r.b) {
+		return 0, io.EOF
+	}
+	c := r.b[r.pos]
+	r.pos++
+	return c, nil
 }
 
 type readResult struct {
